@@ -258,6 +258,35 @@ def run_suite(ctx, spec):
         analyse(ctx, spec, hbin, drv, allmm, extra)
 
 
+def lint_c13(ctx):
+    """C13 (b): every public operation is a client of the unique-table ADT.  Syntactic check on /repo/src:
+    the field `nodes` is touched only by size / mk_choice / mk_const / find / new (and the read-only
+    `duplicates`), and Choice nodes are allocated only in mk_choice (and in the From conversion)."""
+    import re, glob
+    allowed_nodes = {'size', 'mk_choice', 'mk_const', 'find', 'new', 'default'}
+    allowed_alloc = {'mk_choice', 'from'}
+    problems = []
+    for path in sorted(glob.glob(os.path.join(ctx.repo, 'src', '*.rs'))):
+        fn = None
+        for ln, line in enumerate(open(path), 1):
+            code = line.split('//')[0]
+            m = re.search(r'\bfn\s+(\w+)', code)
+            if m:
+                fn = m.group(1)
+            if not path.endswith('parser_io.rs') and re.search(r'\.nodes\b|\bnodes\s*:', code) and 'pub nodes' not in code:
+                if not (path.endswith('bdd.rs') and fn in allowed_nodes):
+                    problems.append('%s:%d: `nodes` touched in fn %s' % (os.path.relpath(path, ctx.repo), ln, fn))
+            if re.search(r'Rc::new\(\s*(BDD|Self)(::<[^>]*>)?::Choice|(BDD|Self)(::<[^>]*>)?::Choice\(\s*Rc::new', code) or \
+               re.search(r'=\s*(BDD|Self)::Choice\(', code):
+                if not (path.endswith('bdd.rs') and fn in allowed_alloc):
+                    problems.append('%s:%d: a Choice node is allocated in fn %s' % (os.path.relpath(path, ctx.repo), ln, fn))
+    ctx.notes.append('C13(b) source lint: %d finding(s)' % len(problems))
+    if problems:
+        ctx.violation({'kind': 'lint', 'key': 'lint:c13', 'broken_correspondence':
+                       'C13(b) source lint: an operation bypasses the unique-table ADT (the theorem C13_histories covers mk_choice/mk_const/find call sequences only)',
+                       'detail': problems[:20]}, no_input=True)
+
+
 def run_property(ctx):
     spec = config.PROPS[ctx.pid]
     try:
@@ -272,6 +301,8 @@ def run_property(ctx):
             'the Gallina model in coq/theories mirrors /repo/src as validated by the correspondence suites of this run (exhaustive on the finite spaces named in suites[].rule, sampled beyond)',
             "Rust's derive(PartialEq, Eq, Hash) on BDD is structural; NamedSymbol/usize order is the order of ids",
         ] + spec.get('assumptions', [])
+        if spec.get('lint') == 'c13':
+            lint_c13(ctx)
         for s in spec['suites']:
             run_suite(ctx, s)
     except build.BuildError as e:
